@@ -19,9 +19,43 @@ let scenario c =
                   let ob = nat_tok (next c) in let lb = nat_tok (next c) in SAliasMem (ar, oa, la, ob, lb)
   | Some ":as" -> ignore (next c); let ar = bytes_tok (next c) in let oa = nat_tok (next c) in let ob = nat_tok (next c) in SAliasStr (ar, oa, ob)
   | _ -> let a = value c in let b = value c in SPair (a, b)
-let run_line ts = let c = { rest = ts } in let s = scenario c in
-  if not (sc_valid s) then raise (Bad "value out of range of its type / window outside the arena") else pobs (sc_run s)
-let spec_line ts os = let c = { rest = ts } in let s = scenario c in
-  match os with
-  | ab :: ba :: gs -> sc_spec s { o_ab = bool_tok ab; o_ba = bool_tok ba; o_get = List.map (fun g -> if g = "~" then None else Some (z_tok g)) gs }
-  | _ -> false
+(* ---- reads through the accessor families:  :rd <family> <store path> <accessor> <stored value | :none> <default> ---- *)
+let fam_of = function
+  | ":nv" -> FNamed | ":ac" -> FActual | ":acd" -> FActualDef | ":ms" -> FSupport | ":msd" -> FSupportDef
+  | ":cac" -> FCActual | ":cacd" -> FCActualDef | ":cms" -> FCSupport | ":cmsd" -> FCSupportDef
+  | ":cact" -> FCActualTagged | ":cmst" -> FCSupportTagged | t -> raise (Bad ("family " ^ t))
+let acc_of = function
+  | ":bool" -> ABool | ":int" -> AInt GInt | ":uint" -> AInt GUInt | ":long" -> AInt GLong | ":ulong" -> AInt GULong
+  | ":llong" -> AInt GLLong | ":ullong" -> AInt GULLong | ":double" -> ADouble | ":string" -> AStr | ":ptr" -> APtr
+  | ":cptr" -> AConstPtr | ":fptr" -> AFun | ":mem" -> AMem | t -> raise (Bad ("accessor " ^ t))
+let rval c =
+  match next c with
+  | ":b" -> RBool (bool_tok (next c)) | ":i" -> RInt (z_tok (next c)) | ":d" -> RDbl (z_tok (next c))
+  | ":s" -> RStr (optbytes_tok (next c)) | ":a" -> RAddr (z_tok (next c)) | ":m" -> RMem (bytes_tok (next c))
+  | t -> raise (Bad ("result tag " ^ t))
+let prval = function
+  | RBool b -> ":b " ^ pbool b | RInt z -> ":i " ^ pz z | RDbl b -> ":d " ^ pz b | RStr s -> ":s " ^ poptbytes s
+  | RAddr a -> ":a " ^ pz a | RMem m -> ":m " ^ pbytes m
+let xscenario c =
+  match peek c with
+  | Some ":rd" -> ignore (next c);
+      let f = fam_of (next c) in
+      let via = (match next c with ":cpp" -> ViaCpp | ":c" -> ViaC | t -> raise (Bad ("store path " ^ t))) in
+      let a = acc_of (next c) in
+      let st = (if peek c = Some ":none" then (ignore (next c); None) else Some (value c)) in
+      let d = rval c in
+      XRead { rd_fam = f; rd_via = via; rd_acc = a; rd_stored = st; rd_default = d }
+  | _ -> XOld (scenario c)
+let pxobs = function OOld o -> pobs o | ORead None -> ":fail" | ORead (Some r) -> prval r
+let run_line ts = let c = { rest = ts } in let s = xscenario c in
+  if not (at_end c) then raise (Bad "trailing tokens") else
+  if not (x_valid s) then raise (Bad "invalid scenario: value out of range of its type / window outside the arena / accessor not offered / default not of the accessor's type")
+  else pxobs (x_run s)
+let spec_line ts os = let c = { rest = ts } in let s = xscenario c in
+  match s with
+  | XRead _ -> (match os with
+      | [":fail"] -> x_spec s (ORead None)
+      | _ -> let oc = { rest = os } in let r = rval oc in at_end oc && x_spec s (ORead (Some r)))
+  | XOld _ -> (match os with
+      | ab :: ba :: gs -> x_spec s (OOld { o_ab = bool_tok ab; o_ba = bool_tok ba; o_get = List.map (fun g -> if g = "~" then None else Some (z_tok g)) gs })
+      | _ -> false)
